@@ -64,7 +64,8 @@ Print Assumptions C01_join_after_finish.
 (** the time stamps mean what they say *)
 Theorem C01_stamps_sound : forall s j e s', Reach s -> step s (j, e) = Some s' -> forall k,
   (t_ret (gh (gt s' k)) <> t_ret (gh (gt s k)) ->
-     k = j /\ (e = ECall (Return (result (gt s' k))) \/ e = ECall (Exit (result (gt s' k)))) /\
+     k = j /\ (e = ECall (Return (result (gt s' k))) \/ e = ECall (Exit (result (gt s' k))) \/
+               (e = ETick /\ main (gt s k) = KTest /\ acted (gh (gt s' k)) = true /\ result (gt s' k) = CANCELED)) /\
      t_ret (gh (gt s' k)) = clock s /\ retv (gh (gt s' k)) = Some (result (gt s' k))) /\
   (t_ready2 (gh (gt s' k)) <> t_ready2 (gh (gt s k)) ->
      k = j /\ e = ECbTick /\ cb (gt s j) = CbReady2 /\ t_ready2 (gh (gt s' k)) = clock s /\
@@ -80,6 +81,43 @@ Theorem C01_join_value : forall s j t s', Reach s -> main (gt s j) = JReap t -> 
             0 < t_ret (gh (gt s t)) /\ t_ret (gh (gt s t)) < t_ready2 (gh (gt s t)) /\ t_ready2 (gh (gt s t)) < clock s.
 Proof. exact join_value. Qed.
 Print Assumptions C01_join_value.
+
+(** cancellation.  A thread acts on a cancellation (terminates itself at a myth_testcancel) only if a myth_cancel
+    naming ITS incarnation stored its request; a pending request likewise; an unused position carries none ... *)
+Theorem C01_cancel_only_own_incarnation : forall s t, Reach s ->
+  (acted (gh (gt s t)) = true -> creq (gh (gt s t)) = true) /\
+  (cancelled (gt s t) = true -> creq (gh (gt s t)) = true) /\
+  (main (gt s t) = NoThread ->
+     creq (gh (gt s t)) = false /\ acted (gh (gt s t)) = false /\ cancelled (gt s t) = false).
+Proof. exact cancel_only_own_incarnation. Qed.
+Print Assumptions C01_cancel_only_own_incarnation.
+
+(** ... creation resets the cancellation state of the descriptor it initialises ... *)
+Theorem C01_create_resets_cancel : forall s j c a nullid argv s', Reach s ->
+  step s (j, ECall (Create c a nullid argv)) = Some s' -> crashed s' = false ->
+  cancelled (gt s' c) = false /\ cancel_enabled (gt s' c) = true /\
+  creq (gh (gt s' c)) = false /\ acted (gh (gt s' c)) = false /\ main (gt s c) = NoThread.
+Proof. exact create_resets_cancel. Qed.
+Print Assumptions C01_create_resets_cancel.
+
+(** ... the request mark of an incarnation is written only by the store of a cancel whose target is that incarnation,
+    and a thread terminates itself only at its own testcancel with cancellation enabled and a request pending *)
+Theorem C01_cancel_steps : forall s j e s', Reach s -> step s (j, e) = Some s' -> forall t,
+  (creq (gh (gt s' t)) <> creq (gh (gt s t)) ->
+     main (gt s t) <> NoThread /\ e = ETick /\ main (gt s j) = KCancel t) /\
+  (acted (gh (gt s' t)) <> acted (gh (gt s t)) ->
+     main (gt s t) <> NoThread /\ t = j /\ e = ETick /\ main (gt s t) = KTest /\
+     cancelled (gt s t) = true /\ cancel_enabled (gt s t) = true /\ creq (gh (gt s t)) = true /\
+     result (gt s' t) = CANCELED /\ retv (gh (gt s' t)) = Some CANCELED).
+Proof. exact cancel_steps. Qed.
+Print Assumptions C01_cancel_steps.
+
+(** a join on a thread that acted on a cancellation delivers CANCELED (and the cancel named it); by C01_stamps_sound
+    the value of a thread that did NOT act was written by its own return / exit: C01_join_value holds unchanged *)
+Theorem C01_join_value_cancelled : forall s j t v tm, Reach s -> In (j, t, v, tm) (joins s) ->
+  acted (gh (gt s t)) = true -> v = CANCELED /\ creq (gh (gt s t)) = true.
+Proof. exact join_value_cancelled. Qed.
+Print Assumptions C01_join_value_cancelled.
 
 (** creation through an attribute object prepared with the public functions (attr_init as it is now,
     then any sequence of setters; also the pthread translation): every field creation reads is
@@ -192,3 +230,15 @@ Proof.
   split; [repeat split; discriminate|]. eexists. split; [vm_compute; reflexivity|].
   split; [reflexivity|]. split; [reflexivity|]. eexists. vm_compute. reflexivity.
 Qed.
+
+(** cancellation non-vacuity: thread 1 (parent-first) is cancelled before it starts and acts at its first testcancel;
+    the join delivers CANCELED; thread 2 is cancelled after it finished: no effect *)
+Definition ex_cancel_sched : list (nat * ev) :=
+  [(0, ECall (Create 1 ex_attr false 9%Z)); (0, ERet 0%Z); (0, ECall (Cancel 1)); (0, ETick); (0, ERet 0%Z);
+   (1, ETick); (1, ECall TestCancel); (1, ETick); (1, ETick); (1, ETick); (1, ECbTick); (1, ECbTick); (1, ECbTick);
+   (0, ECall (Join 1)); (0, ETick); (0, ETick); (0, ETick); (0, ETick); (0, ERet 0%Z)].
+Example ex_cancel :
+  let s := run step ex_cancel_sched (init_state 1) in
+  Reach s /\ acted (gh (gt s 1)) = true /\ creq (gh (gt s 1)) = true /\ joins s = [(0, 1, CANCELED, 18)] /\
+  main (gt s 0) = Idle.
+Proof. cbv zeta. split; [apply run_reach|]. repeat split; vm_compute; reflexivity. Qed.
